@@ -339,25 +339,8 @@ Notation xi := (Exec.xi buf penv o fn).
 Notation xcall := (Exec.xcall buf penv o fn).
 Notation jump := (Exec.jump buf penv o fn).
 
-(** the emission had fuel for the whole expression, and every rule it reaches exists *)
-Fixpoint deep (nf : nat) (e : expr) : bool :=
-  match nf with
-  | O => false
-  | S nf =>
-    match e with
-    | EName r =>
-        match nth_error g r with
-        | Some (RBody b) => Bool.eqb (inl r) (o_inline o r) && (if o_inline o r then deep nf b else callable r)
-        | Some (RAct _) => Bool.eqb (inl r) (o_inline o r) && (if o_inline o r then true else callable r)
-        | _ => false
-        end
-    | ESeq es => forallb (deep nf) es
-    | EAlt es => match es with [] => false | _ => forallb (deep nf) es end
-    | ESwitch cs d => forallb (fun kc : list rune * expr => deep nf (snd kc)) cs && deep nf d
-    | EAnd e1 | ENot e1 | EQuery e1 | EStar e1 | EPlus e1 | EPush e1 => deep nf e1
-    | _ => true
-    end
-  end.
+Notation deep := (SEmit.deep g (o_inline o) inl callable).
+Notation rdeep := (SEmit.rdeep g (o_inline o) inl callable).
 
 Definition frame (l l1 : nat) (e e' : nat -> nat * nat) : Prop := forall j, j < l \/ l1 <= j -> e' j = e j.
 Lemma frame_refl l l1 e : frame l l1 e e.
@@ -389,17 +372,17 @@ Definition calls_ok (n : nat) : Prop :=
 Lemma step_fall c i k x x' out : xi i x (OFall x') -> xs c k x' out -> xs c (i :: k) x out.
 Proof. apply xs_fall. Qed.
 
-Lemma xi_char_ok c l x c' : rd buf (xm x) = Some c' -> Z.eqb c c' = true -> xi (SCond (CChar c) l) x (OFall x).
+Lemma xi_char_ok c l x c' : rd buf (xm x) = Some c' -> Z.eqb c c' = true -> xi (SCond (QChar c) l) x (OFall x).
 Proof. intros H E. pose proof (xi_char buf penv o fn c l x) as X. unfold rdtest in X. rewrite H, E in X. exact X. Qed.
-Lemma xi_char_ko c l x c' : rd buf (xm x) = Some c' -> Z.eqb c c' = false -> xi (SCond (CChar c) l) x (OGoto l x).
+Lemma xi_char_ko c l x c' : rd buf (xm x) = Some c' -> Z.eqb c c' = false -> xi (SCond (QChar c) l) x (OGoto l x).
 Proof. intros H E. pose proof (xi_char buf penv o fn c l x) as X. unfold rdtest in X. rewrite H, E in X. exact X. Qed.
-Lemma xi_char_crash c l x : rd buf (xm x) = None -> xi (SCond (CChar c) l) x OCrash.
+Lemma xi_char_crash c l x : rd buf (xm x) = None -> xi (SCond (QChar c) l) x OCrash.
 Proof. intros H. pose proof (xi_char buf penv o fn c l x) as X. unfold rdtest in X. rewrite H in X. exact X. Qed.
-Lemma xi_range_ok lo hi l x c' : rd buf (xm x) = Some c' -> in_range lo hi c' = true -> xi (SCond (CRange lo hi) l) x (OFall x).
+Lemma xi_range_ok lo hi l x c' : rd buf (xm x) = Some c' -> in_range lo hi c' = true -> xi (SCond (QRange lo hi) l) x (OFall x).
 Proof. intros H E. pose proof (xi_range buf penv o fn lo hi l x) as X. unfold rdtest in X. rewrite H, E in X. exact X. Qed.
-Lemma xi_range_ko lo hi l x c' : rd buf (xm x) = Some c' -> in_range lo hi c' = false -> xi (SCond (CRange lo hi) l) x (OGoto l x).
+Lemma xi_range_ko lo hi l x c' : rd buf (xm x) = Some c' -> in_range lo hi c' = false -> xi (SCond (QRange lo hi) l) x (OGoto l x).
 Proof. intros H E. pose proof (xi_range buf penv o fn lo hi l x) as X. unfold rdtest in X. rewrite H, E in X. exact X. Qed.
-Lemma xi_range_crash lo hi l x : rd buf (xm x) = None -> xi (SCond (CRange lo hi) l) x OCrash.
+Lemma xi_range_crash lo hi l x : rd buf (xm x) = None -> xi (SCond (QRange lo hi) l) x OCrash.
 Proof. intros H. pose proof (xi_range buf penv o fn lo hi l x) as X. unfold rdtest in X. rewrite H in X. exact X. Qed.
 
 (** a jump raised by the first statement of a suffix is a [jump] of the list *)
@@ -979,7 +962,7 @@ Proof.
   intros IHle Hcalls. pose proof (IHle n (le_n _)) as IH.
   intros nf e ko pd mk l ce l1 ll Hd E Hko m res R c pre post env pf Hc Hu.
   destruct nf as [|nf]; [discriminate|].
-  destruct e as [|ch|lo hi|r|k|k|k| |es|es|e1|e1|e1|e1|e1|e1|cs d]; cbn [SEmit.semit deep] in E, Hd; cbn [run_f] in R.
+  destruct e as [|ch|lo hi|r|k|k|k| |es|es|e1|e1|e1|e1|e1|e1|cs d]; cbn [SEmit.semit SEmit.deep] in E, Hd; cbn [run_f] in R.
   - (* . *)
     destruct pd; inv E; inv R.
     + apply sim_nil. reflexivity.
@@ -1054,7 +1037,7 @@ Proof.
            ++ split; [left; reflexivity|]. exists env, pf. split; [apply frame_refl|]. intros out H. eapply xs_jump; [exact X|exact H].
   - (* &{..} *)
     inv E. inv R.
-    assert (Hko_b : ~ In ko (toplbls [SPredSet k; SCond CPredTest ko])) by (cbn; tauto).
+    assert (Hko_b : ~ In ko (toplbls [SPredSet k; SCond QPred ko])) by (cbn; tauto).
     destruct (penv k (pos m)) eqn:Ep; cbn [sim app].
     + exists env, (penv k (pos m)). split; [apply frame_refl|]. intros out H. eapply block_fall; [|exact H].
       eapply xs_fall; [apply xi_predset|]. cbn [xm setpf].
@@ -1211,9 +1194,6 @@ Proof.
 Qed.
 
 (** ** rule functions *)
-Definition rdeep (nf : nat) (r : nat) : bool :=
-  match nth_error g r with Some (RBody b) => deep nf b | Some (RAct _) => true | _ => false end.
-
 Lemma ipush_sound n : SoundE n -> forall nf r ko pd mk l ce l1 ll,
   rdeep nf r = true -> sipush (semit nf) r ko pd mk l = (ce, l1, ll) -> ko < l ->
   forall m res, ipush_run g o (run n) r pd mk m = Some res ->
@@ -1221,7 +1201,7 @@ Lemma ipush_sound n : SoundE n -> forall nf r ko pd mk l ce l1 ll,
     sim c ce post ko l l1 (mkx m env pf) res.
 Proof.
   intros IH nf r ko pd mk l ce l1 ll Hd E Hko m res R c pre post env pf Hc Hu.
-  unfold rdeep in Hd. unfold sipush_emit in E. unfold ipush_run in R.
+  unfold SEmit.rdeep in Hd. unfold sipush_emit in E. unfold ipush_run in R.
   destruct (nth_error g r) as [[b|k|]|] eqn:Eg; try discriminate.
   - destruct (semit nf b ko pd mk (S l)) as [[cb lb] llb] eqn:Eb. inv E.
     destruct (run n b pd mk m) as [r1|] eqn:Rb; [|discriminate].
@@ -1251,7 +1231,7 @@ Proof.
   set (tlk := if used ko then [SLbl ko] ++ (if o_ast o then [SMemo r ko false] else []) ++ [SRestore ko; SReturn false] else []).
   set (body := mc ++ sv ++ cip ++ mt ++ [SReturn true] ++ tlk) in *.
   assert (Hrng : rng ko (S ko) cip lb).
-  { unfold sipush_emit in Eip. unfold rdeep in Hd. destruct (nth_error g r) as [[b|k|]|]; try discriminate.
+  { unfold sipush_emit in Eip. unfold SEmit.rdeep in Hd. destruct (nth_error g r) as [[b|k|]|]; try discriminate.
     - destruct (semit nf b ko false false (S (S ko))) as [[cb lb0] llb] eqn:Eb. inv Eip.
       destruct (semit_rng _ _ _ _ _ _ _ _ _ _ _ _ _ _ _ Eb) as (A1 & A2 & A3).
       split; [lia|split]; intros j Hj; cbn [slbls sjumps flat_map slbls1 sjumps1 app] in Hj; rewrite app_nil_r in Hj;
